@@ -26,6 +26,22 @@ std::string run_sr(const Args& a) {
 	rec.log.push_back(rc != 0 || g_calls ? "ERR:" + str(g_line) + ":" + str(g_calls) : std::string("OK"));
 	return join(rec.log);
 }
+// `so <ext><cEdge><cHeu><filter> <hex>` : reads with the real SmodelsInput and the given option set (four 0/1 digits)
+std::string run_so(const Args& a) {
+	if (a.size() != 2 || a[0].size() != 4) return "bad-op";
+	std::istringstream in(unhex(a[1]));
+	Recorder rec;
+	g_line = 0; g_calls = 0;
+	Potassco::SmodelsInput::Options opts;
+	if (a[0][0] == '1') opts.enableClaspExt();
+	if (a[0][1] == '1') opts.convertEdges();
+	if (a[0][2] == '1') opts.convertHeuristic();
+	if (a[0][3] == '1') opts.dropConverted();
+	int rc = Potassco::readSmodels(in, rec, &onError, opts);
+	rec.log.push_back(rc != 0 || g_calls ? "ERR:" + str(g_line) + ":" + str(g_calls) : std::string("OK"));
+	return join(rec.log);
+}
 hv::Reg r1("sw", &run_sw);
+hv::Reg r3("so", &run_so);
 hv::Reg r2("sr", &run_sr);
 }
